@@ -222,25 +222,34 @@ func (m *Manager) Stop() error {
 
 		if ses != nil {
 			ses.stop(mqttp.CodeServerShuttingDown)
-			// the connection is closed now. A container that is kept (durable session with
-			// subscriptions, pending expiry or delayed will) stays in the map and has not been
-			// counted down by sessionOffline
-			if _, kept := m.sessions.Load(k); kept {
-				m.sessionsCount.Done()
+		}
+
+		// the timer first: cancel waits for a callback that is already running, and what that callback
+		// does to the container (an expired session is removed and counted down by it) is settled
+		// before the container is counted down here
+		var pending *expiry
+		if exp := wrap.expiry.Load(); exp != nil {
+			if e := exp.(*expiry); e.cancel() {
+				pending = e
 			}
-		} else {
+		}
+
+		wrap.rmLock.Lock()
+		removed = wrap.removed
+		wrap.rmLock.Unlock()
+
+		// the connection is closed now. A container that is kept (durable session with
+		// subscriptions, pending expiry or delayed will) stays in the map and has not been
+		// counted down by sessionOffline, nor by its expiry
+		if _, kept := m.sessions.Load(k); kept && !removed {
 			m.sessionsCount.Done()
 		}
 
-		exp := wrap.expiry.Load()
-		if exp != nil {
-			e := exp.(*expiry)
-			if e.cancel() {
-				// the timer is stopped before it has fired: what it was guarding (remaining session
-				// expiry, delayed will) is handed to persistence
-				_ = m.persistence.ExpiryStore([]byte(k.(string)), e.persistedState())
-				m.expiryCount.Done()
-			}
+		if pending != nil {
+			// the timer is stopped before it has fired: what it was guarding (remaining session
+			// expiry, delayed will) is handed to persistence
+			_ = m.persistence.ExpiryStore([]byte(k.(string)), pending.persistedState())
+			m.expiryCount.Done()
 		}
 
 		return true
